@@ -526,8 +526,9 @@ char *snoopy_configfile_syslog_value_cleanup (char *confVal)
     // Convert to upper case
     snoopy_util_string_toUpper(confVal);
 
-    // Remove LOG_ prefix
-    confValCleaned = snoopy_configfile_syslog_value_remove_prefix(confVal);
+    // The (optional, single) LOG_ prefix is removed by snoopy_util_syslog_convert*ToInt().
+    // Removing it here as well would make values like "LOG_LOG_AUTH" acceptable.
+    confValCleaned = confVal;
 
     return confValCleaned;
 }
